@@ -150,6 +150,35 @@ def run(ctx, built):
             ctx.oracle_fail(f"snap_interval(Interval({lo!r}, {hi!r})): {why}", {"op": "snap", "lo": lo, "hi": hi})
 
 
+    forest_ranges(ctx, built)
+
+
+def forest_ranges(ctx, built):
+    """How Forest.__init__ uses snapping: column ranges (hull + null stand-in, snapped) of real forests vs the model, and the
+    property evaluated on the ranges of columns whose 1-dim root was not pushed down."""
+    import tree_streams as TS
+    from syndiffix.tree import Leaf
+
+    def oracle(t, F, comb, root):
+        if len(comb) != 1 or not isinstance(root, Leaf):
+            return
+        j = comb[0]
+        vals = [v for v in t["cols"][j] if v is not None]
+        lo, hi = (min(vals), max(vals)) if vals else (0.0, 0.0)
+        nm = F.null_mappings[j]
+        want_nm = 2 * hi if hi > 0 else (2 * lo if lo < 0 else 1.0)
+        case = {"op": "forest-range", "column": t["cols"][j][:8], "n": t["n"]}
+        if nm != want_nm or lo <= nm <= hi:
+            ctx.oracle_fail(f"column range [{lo!r},{hi!r}]: null stand-in {nm!r} (expected {want_nm!r}, strictly outside)", case)
+        elo, ehi = min(lo, nm), max(hi, nm)
+        s = F.snapped_intervals[j]
+        if in_domain(elo, ehi) and s.min <= elo and ehi <= s.max:      # a pushed-down root no longer covers the hull: not a snap result
+            why = oracle_snap(elo, ehi, s.min, s.max)
+            if why:
+                ctx.oracle_fail(f"Forest column range [{lo!r},{hi!r}] with null stand-in {nm!r} snapped to [{s.min!r},{s.max!r}]: {why}", case)
+    TS.stream_tree(ctx, built, ctx.scale(40, 400), oracle, maxdim=1, max_rows=30, name="S-forest-ranges")
+
+
 def search(ctx, seeds):
     """Failing-input search after a broken obligation: the oracle over a fresh, larger family."""
     sub = Ctx(ctx.pid, "thorough", ctx.seed + 7919)
